@@ -4,6 +4,7 @@ import (
 	"bytes"
 	"encoding/json"
 	"fmt"
+	"math"
 	"sort"
 	"strconv"
 
@@ -177,7 +178,8 @@ func c02Feature(c *ctx) *geojson.Feature {
 	f := geojson.NewFeature(g)
 	switch c.rng.Intn(4) {
 	case 0:
-		f.ID = []string{"a", "17", ""}[c.rng.Intn(3)]
+		// (strings that look like something else to a document store: 24 hex digits in either case, 24 other characters)
+		f.ID = []string{"a", "17", "", "5F3E2A1B9C8D7E6F5A4B3C2D", "5f3e2a1b9c8d7e6f5a4b3c2d", "zzzzzzzzzzzzzzzzzzzzzzzz", "507F1F77BCF86CD799439011"}[c.rng.Intn(7)]
 		if f.ID == "" {
 			f.ID = "id-0"
 		}
@@ -383,11 +385,34 @@ func init() {
 						break
 					}
 				}
+				if i%16 == 8 {
+					// boxes that are equal as values and differ in the sign of a zero, one event after the other (a bound is written
+					// as the polygon it denotes, every coordinate as it is)
+					z := []float64{0, math.Copysign(0, -1)}[(i/16)%2]
+					g = orb.Bound{Min: orb.Point{z, -3}, Max: orb.Point{5, z}}
+					if c.rng.Intn(2) == 0 {
+						g = orb.Collection{orb.Bound{Min: orb.Point{z, -3}, Max: orb.Point{5, z}}, orb.Point{1, 1}}
+					}
+				}
 				gm, _ := encGeom(g, in.fn())
 				e := jdoc{"k": "geom", "g": gm, "err": "", "same": 0, "nt": 1, "routes": 0, "stable": st, "hkept": 1}
 				setCurrent("geojson.Geometry", gm)
 				site := guard(func() {
-					data, err := geojson.NewGeometry(g).MarshalJSON()
+					ng := geojson.NewGeometry(g)
+					data, err := ng.MarshalJSON()
+					// (the value NewGeometry made is the caller's: its coordinates are overwritten once it has been marshalled)
+					defer func() {
+						for _, p := range flatPoints(ng.Coordinates) {
+							_ = p
+						}
+						if poly, ok := ng.Coordinates.(orb.Polygon); ok {
+							for _, r := range poly {
+								for k := range r {
+									r[k] = orb.Point{9e9, -9e9}
+								}
+							}
+						}
+					}()
 					hold(data)
 					if err != nil {
 						e["err"] = err.Error()
@@ -515,6 +540,16 @@ func init() {
 						return
 					}
 					e["decb"] = featModel(in, bf)
+					// what was decoded is the caller's: once it has been looked at, properties are written into it (whatever it
+					// had or lacked) - no later decode shows them
+					defer func() {
+						for _, x := range []*geojson.Feature{df, bf} {
+							if x.Properties == nil {
+								x.Properties = geojson.Properties{}
+							}
+							x.Properties["scribbled by the caller"] = true
+						}
+					}()
 					// an integer id is still that integer after BSON (which has integer types)
 					if want, isInt := f.ID.(int); isInt {
 						e["idb"] = 0
